@@ -11,6 +11,7 @@ mod c01;
 mod c02;
 mod c03;
 mod c04;
+mod c05;
 mod c10;
 mod c12;
 mod c13;
@@ -71,6 +72,7 @@ fn main() {
         "C02" => c02::run(&p, &mut rep),
         "C03" => c03::run(&p, &mut rep),
         "C04" => c04::run(&p, &mut rep),
+        "C05" => c05::run(&p, &mut rep),
         "C10" => c10::run(&p, &mut rep),
         "C12" => c12::run(&p, &mut rep),
         "C13" => c13::run(&p, &mut rep),
